@@ -22,6 +22,9 @@ def build():
         if tag == "F-C16":
             build_c16(e)
             continue
+        if tag == "F-PARKED":
+            build_parked(e)
+            continue
         if tag not in hazards.FAMILIES or tag == "OWN-ITER":
             continue
         found = None
@@ -66,6 +69,23 @@ def build_c16(e):
     with open(os.path.join(VERIF, e["witness"]), "w") as f:
         json.dump(payload, f, indent=1, sort_keys=True)
     print("F-C16 C16 ->", e["witness"])
+
+
+def build_parked(e):
+    from . import ctl_engine
+    from .ctlsim import CtlSim
+    run = ctl_engine.c19_parked_run(random.Random(0))
+    run["config"]["transport"] = "unix"
+    run["steps"] = [{"op": "start"}, {"op": "idle"}, {"op": "connect", "c": 1, "w": 80}, {"op": "idle"},
+                    {"op": "line", "c": 1, "text": "until-closed"}, {"op": "idle"},
+                    {"op": "close", "c": 1, "how": "close"}, {"op": "idle"}, {"op": "stop"}, {"op": "idle"}]
+    sim = CtlSim(copy.deepcopy(run), {"C19"}).execute()
+    v = next(v for v in sim.viol if v["oracle"] == "serving_task_pending")
+    payload = {"property": "C19", "oracle": v["oracle"], "signature": "F-PARKED", "msg": v["msg"], "run": run,
+               "digest": sim.digest(), "engine": "ctl", "finding": "F-PARKED"}
+    with open(os.path.join(VERIF, e["witness"]), "w") as f:
+        json.dump(payload, f, indent=1, sort_keys=True)
+    print("F-PARKED C19 ->", e["witness"])
 
 
 def build_size(e):
